@@ -1,2 +1,2 @@
 #include "numkernel_units.hh"
-namespace nk { void w16_case() {} void w32_case() {} void w64_case() {} void float_case_f() {} void float_case_d() {} void float_case_l() {} void gmp_case() {} }
+namespace nk { void float_case_f() {} void float_case_d() {} void float_case_l() {} void gmp_case() {} }
